@@ -2,7 +2,7 @@
 CHECK = {
     "pkg": ".", "files": ["root/fwref_test.go", "root/c18_test.go"], "run": "^TestC18",
     "quick": {"scale": 1, "shards": 1, "timeout": 600},
-    "thorough": {"scale": 15, "shards": 8, "timeout": 1800},
+    "thorough": {"scale": 20, "shards": 8, "timeout": 1800},
     "rule": "each case is a history of 4-30 steps inside a testing/synctest bubble (virtual clock): packets of 1-3 base flows and "
             "near-duplicate tuples (one port, protocol, fragment flag or address pair changed) over 1-2 peers in both directions; "
             "virtual sleeps around each generated timeout (T-1ns, T, T+1ns, T+tick, T+2tick, T+2tick+1ns, T+3tick, 10T, T/2, 1ms); "
